@@ -38,6 +38,9 @@ type HCase struct {
 	FilterUnit string    // "" = no trimming; else .unit term applied in place to r.Result() between Scans
 	FilterNeg  bool
 	FilterRe   bool // term written as anchored regexp
+	// Crowd > 0: before the first input the same Reader reads an input with that many distinct
+	// units and keys (its table of shared strings holds 1024)
+	Crowd int
 }
 
 var hUnits = []string{"ns/op", "sec/op", "MB/s", "B/s", "B/op", "allocs/op", "ns", "MB", "widgets", "ns/MB", "sec/MB", "MB*ns/op", "nsec/op", "B"}
@@ -57,6 +60,9 @@ func hGen(t *rapid.T) HCase {
 			in = append(in, l)
 		}
 		c.Inputs = append(c.Inputs, in)
+	}
+	if vcase.OneIn(t, 12, "crowd") {
+		c.Crowd = rapid.SampledFrom([]int{1000, 1020, 1023, 1024, 1025, 1030, 1100, 2100}).Draw(t, "ncrowd")
 	}
 	if rapid.IntRange(0, 2).Draw(t, "filter") > 0 {
 		c.FilterUnit = rapid.SampledFrom(hUnits).Draw(t, "funit")
@@ -92,6 +98,24 @@ func hCheck(c HCase) (v vcase.Verdict) {
 		v.Label("reset_between_inputs")
 	}
 	var r *benchfmt.Reader
+	if c.Crowd > 0 && c.Crowd <= 5000 {
+		var sb strings.Builder
+		for i := 0; i < c.Crowd; i++ {
+			if i%2 == 0 {
+				fmt.Fprintf(&sb, "BenchmarkCrowd 1 %d crowdunit%d\n", i, i)
+			} else {
+				fmt.Fprintf(&sb, "crowdkey%d: v\n", i)
+			}
+		}
+		r = benchfmt.NewReader(strings.NewReader(sb.String()), "crowd")
+		for r.Scan() {
+		}
+		if err := r.Err(); err != nil {
+			v.Failf("crowd input: %v", err)
+			return
+		}
+		v.Label("after_1024+_distinct_strings")
+	}
 	prevLonger, sawDup := false, false
 	prevN := 0
 	for ii, in := range c.Inputs {
